@@ -174,14 +174,15 @@ theorem C15_multi_dead_shape_partial (hreq : Requests progs) (h : Reachable (ini
 `init_generator`, `next_batch`, `stop_prefetch`, `shutdown`): in a reachable configuration in which no thread is
 enabled every thread has ended, except
 * the server's own thread when nobody has requested a shutdown (parked in `run_until_shutdown`, not notified), and
-* prefetch threads parked (not notified) in `put` on a bounded queue whose enqueueing has NOT ended: that generator has
-  not been stopped, has not failed and is not exhausted — a generator nobody reads any more and nobody has stopped.
+* the prefetch thread of the CURRENT generator (`self._generator`: the newest one), parked (not notified) in `put` on
+  its bounded queue whose enqueueing has NOT ended: that generator has not been stopped, has not failed and is not
+  exhausted — a live generator nobody reads at the moment.
 In particular no thread is inside `get_batch`, inside `maybe_stop`, in a join, or waiting for a lock. -/
 theorem C15_multi_no_request_blocked (hreq : Requests progs) (h : Reachable (init p progs) c)
     (hdead : enabled c = []) {tid : Queue.Tid} {t : Thread} (ht : c.ths[tid]? = some t) :
     t.pc = .done ∨ Stuck c tid t :=
   multi_dead (ginv_reachable hreq h) (iinv_reachable hreq h) (uinv_reachable hreq h) (sinv_reachable hreq h)
-    (lkinv_reachable h) (stinv_reachable h) (vinv_reachable hreq h) (enabled_nil hdead) tid t ht
+    (lkinv_reachable h) (stinv_reachable h) (vinv_reachable hreq h) (oinv_reachable hreq h) (enabled_nil hdead) tid t ht
 
 /-- **Every request has ended**: the `i`-th request thread (`progs[i]`, thread `i + 1`) of a configuration without
 enabled step is at its final program point — whatever the other requests were and however they were interleaved.
@@ -216,7 +217,7 @@ theorem C15_multi_stopped_producer_ended (hreq : Requests progs) (h : Reachable 
   · exfalso
     cases h1 with
     | idleMain h2 => rw [hp] at h2; cases h2
-    | parkedProducer h2 _ _ q0 hq0 hnd hsr hex =>
+    | parkedProducer h2 _ _ _ q0 hq0 hnd hsr hex =>
       rw [hp] at h2
       obtain rfl := Prog.producer.inj h2
       rw [hq] at hq0; obtain rfl := Option.some.inj hq0
@@ -224,6 +225,29 @@ theorem C15_multi_stopped_producer_ended (hreq : Requests progs) (h : Reachable 
       · rw [hsr] at h3; cases h3
       · rw [hex] at h3; cases h3
       · rw [hnd] at h3; cases h3
+
+/-- **A replaced generator's prefetch thread has ended**: in a configuration without enabled step the prefetch thread
+of every queue other than `self._generator` is at its final program point ("initialising a new generator … stops the
+previous one"), for every number of re-initialisations racing with any other requests. -/
+theorem C15_multi_replaced_producer_ended (hreq : Requests progs) (h : Reachable (init p progs) c)
+    (hdead : enabled c = []) {tp : Queue.Tid} {P : Thread} {k : Nat}
+    (hP : c.ths[tp]? = some P) (hp : P.prog = .producer k) (hk : c.sh.generator ≠ some k) : P.pc = .done := by
+  rcases C15_multi_no_request_blocked hreq h hdead hP with h1 | h1
+  · exact h1
+  · exfalso
+    cases h1 with
+    | idleMain h2 => rw [hp] at h2; cases h2
+    | parkedProducer h2 _ _ hgen =>
+      rw [hp] at h2
+      obtain rfl := Prog.producer.inj h2
+      exact hk hgen
+
+/-- **A generator that has been replaced is stopped or exhausted** (every reachable configuration): every queue other
+than `self._generator` has had `maybe_stop` executed on it, or was read to its end. -/
+theorem C15_multi_replaced_is_stopped (hreq : Requests progs) (h : Reachable (init p progs) c)
+    {k : Nat} {q : Queue.Shared} (hq : c.sh.qs[k]? = some q) (hk : c.sh.generator ≠ some k) :
+    q.stopRequested = true ∨ q.exhausted = true :=
+  oinv_reachable hreq h k q hq hk
 
 /-- **After a shutdown everything has ended** except live generators nobody stopped … which do not exist: the
 shutdown's own locked stop stops the current generator.  Stated as: with a shutdown requested, the server thread is
